@@ -189,6 +189,19 @@ macro_rules! shift_type {
                         let r = call(ctx, || { let mut z = u.clone(); z <<= t; z });
                         expect_nat(ctx, concat!("BigUint x<<=", $tn), &args, r, &wl.mag);
                     }
+                    if ku <= 1000 && !v.i.is_zero() {
+                        // owned operand on a buffer with room for the whole result (the clone()-built forms above have
+                        // capacity = length and can never shift in place)
+                        let want = (v.i.mag.bits() as usize + ku as usize) / 64 + 3;
+                        let r = call(ctx, || nbmc::with_slack(v.b.magnitude(), want).0 << t);
+                        expect_nat(ctx, concat!("BigUint x(slack)<<", $tn), &args, r, &wl.mag);
+                        let r = call(ctx, || { let mut z = nbmc::with_slack(v.b.magnitude(), want).0; z <<= t; z });
+                        expect_nat(ctx, concat!("BigUint x(slack)<<=", $tn), &args, r, &wl.mag);
+                        let r = call(ctx, || BigInt::from_biguint(v.b.sign(), nbmc::with_slack(v.b.magnitude(), want).0) << t);
+                        expect_int(ctx, concat!("BigInt x(slack)<<", $tn), &args, r, &wl);
+                        let r = call(ctx, || { let mut z = BigInt::from_biguint(v.b.sign(), nbmc::with_slack(v.b.magnitude(), want).0); z >>= t; z });
+                        expect_int(ctx, concat!("BigInt x(slack)>>=", $tn), &args, r, &wr);
+                    }
                 }
             }
         }
